@@ -36,6 +36,13 @@ def toDFAMin (n : NFA σ α) (pick : List Nat → Nat := fun _ => 0) : DFA (DFA.
   let P := n.toDFA
   DFA.minifyCore P.states P.syms P.trans P.init P.finals pick
 
+/-- `DFA.from_nfa(n)` with the library's DEFAULT options `retain_names=False, minify=True`:
+`_expand_dfa` renames every subset state by its BFS discovery index while it builds the
+table, and `_minify` is called on that renumbered table (int names, trap id `-1`). -/
+def toDFAMinRenum (n : NFA σ α) (pick : List Nat → Nat := fun _ => 0) : DFA (DFA.MinName Nat) α :=
+  let P := n.toDFA.renumber
+  DFA.minifyCore P.states P.syms P.trans P.init P.finals pick
+
 /-- `_compute_reachable_states(initial_state, transitions)`. -/
 def reachableStates (init : σ) (trans : List (σ × List (Option α × List σ))) (fuel : Nat) : List σ :=
   bfsN (fun q => ((alookup q trans).getD []).flatMap fun e => e.2) fuel [init]
